@@ -59,6 +59,7 @@ class Lane(LaneBase):
             oracle = self.oracle(g, m, r1, ismin, r2, mm, out)
         else:
             tags.append('out-of-domain')
+            oracle = tsgen.coherence_failures(g)
         if rejected:
             tags.append('some-op-rejected')
         lines, out, _cut = tsgen.fit_budget(lines, out)       # (after the oracle has seen every reply)
